@@ -182,4 +182,82 @@ example :
     s1.op = .restarting ∧ (tick (tick (tick (tick (tick s1))))).op = .restarting ∧
     (tick (tick (tick (tick (tick (tick s1)))))).op = .running := by decide
 
+/-! ### the FTP client on the database host: its tick and the methods that load its countdowns -/
+
+/-- the FTP client of the database host seen as a service record (the model keeps it in four fields of `Server`) -/
+def ftpcAsServer (s : Server) (f : SvcState) : Server :=
+  { node := s.node, op := f, restartCd := s.ftpcRestartCd, restartDur := ftpcRestartDur,
+    health := match s.ftpcFix with | some _ => .fixing | none => if s.ftpcComp then .compromised else .good,
+    fixCd := s.ftpcFix.getD 0, fixDur := ftpcFixDur }
+
+/-- ... and back -/
+def ftpcBack (s : Server) (r : Server) : Server :=
+  { s with ftpc := some r.op, ftpcFix := if r.health = .fixing then some r.fixCd else none, ftpcRestartCd := r.restartCd }
+
+/-- **The FTP client's tick.** `FTPClient.apply_timestep` as Python dispatches it (Service → Software → the GENERIC
+`_update_fix_status`, no restore), translated, = the model's `tickFtpc`: for every state of the client (life-cycle state, fix
+countdown or none, restart countdown). -/
+theorem C17_tr_tick_ftpc (s : Server) (b : Backup) (f : SvcState) (hf : s.ftpc = some f) (t : Nat) (pq pr big k : Bool) :
+    s.tickFtpc = ftpcBack s (DatabaseTickTr.ftpcApplyTimestep (TickW.of (ftpcAsServer s f) b) t pq pr big k).s := by
+  unfold Server.tickFtpc DatabaseTickTr.ftpcApplyTimestep DatabaseTickTr.Ftpc_Service_apply_timestep
+    DatabaseTickTr.Ftpc_Software_apply_timestep DatabaseTickTr.Ftpc_SimComponent_apply_timestep
+    DatabaseTickTr.Ftpc_Software_update_fix_status ftpcBack ftpcAsServer
+  rw [hf]
+  cases hx : s.ftpcFix with
+  | none =>
+    by_cases hr : f = .restarting
+    · by_cases hz : s.ftpcRestartCd = 0
+      · have h1 : ((s.ftpcRestartCd : Int) ≤ 0) := by omega
+        cases hc : s.ftpcComp <;> simp [hx, hr, hz, hc]
+      · have h1 : ¬ ((s.ftpcRestartCd : Int) ≤ 0) := by omega
+        have h2 : ((s.ftpcRestartCd : Int) - 1).toNat = s.ftpcRestartCd - 1 := by omega
+        cases hc : s.ftpcComp <;> simp [hx, hr, hz, hc, h1, h2]
+    · cases hc : s.ftpcComp <;> simp [hx, hr, hc]
+  | some n =>
+    by_cases hn : n ≤ 1
+    · have g1 : ((n : Int) - 1 ≤ 0) := by omega
+      by_cases hr : f = .restarting
+      · by_cases hz : s.ftpcRestartCd = 0
+        · have h1 : ((s.ftpcRestartCd : Int) ≤ 0) := by omega
+          simp [hx, hr, hz, hn, g1]
+        · have h1 : ¬ ((s.ftpcRestartCd : Int) ≤ 0) := by omega
+          have h2 : ((s.ftpcRestartCd : Int) - 1).toNat = s.ftpcRestartCd - 1 := by omega
+          simp [hx, hr, hz, hn, g1, h1, h2]
+      · simp [hx, hr, hn, g1]
+    · have g1 : ¬ ((n : Int) - 1 ≤ 0) := by omega
+      have g2 : ((n : Int) - 1).toNat = n - 1 := by omega
+      by_cases hr : f = .restarting
+      · by_cases hz : s.ftpcRestartCd = 0
+        · have h1 : ((s.ftpcRestartCd : Int) ≤ 0) := by omega
+          simp [hx, hr, hz, hn, g1, g2]
+        · have h1 : ¬ ((s.ftpcRestartCd : Int) ≤ 0) := by omega
+          have h2 : ((s.ftpcRestartCd : Int) - 1).toNat = s.ftpcRestartCd - 1 := by omega
+          simp [hx, hr, hz, hn, g1, g2, h1, h2]
+      · simp [hx, hr, hn, g1, g2]
+
+/-- `['service','ftp-client','restart' | 'fix']` on a powered-on host with the client RUNNING (the validator): the model's
+`Server.admin` = the translated `Service.restart` / `Software.fix` on the client's record — `restart` loads the countdown with the
+restart duration; `fix` is accepted from GOOD / COMPROMISED (countdown := fixing duration, health FIXING) and refused while FIXING. -/
+theorem C17_tr_ftpc_admin (s : Server) (b : Backup) (t : Nat) (pq pr big k : Bool)
+    (hon : s.node.isOn = true) (hf : s.ftpc = some .running) :
+    s.admin (.ftpc .restart) = (ftpcBack s (DatabaseTickTr.ftpcRestart (TickW.of (ftpcAsServer s .running) b) t pq pr big k).1.s,
+                                some (DatabaseTickTr.ftpcRestart (TickW.of (ftpcAsServer s .running) b) t pq pr big k).2) ∧
+    (s.admin (.ftpc .fix)).2 = some (DatabaseTickTr.ftpcFix (TickW.of (ftpcAsServer s .running) b) t pq pr big k).2 ∧
+    (s.admin (.ftpc .fix)).1 =
+      if (DatabaseTickTr.ftpcFix (TickW.of (ftpcAsServer s .running) b) t pq pr big k).2
+      then { ftpcBack s (DatabaseTickTr.ftpcFix (TickW.of (ftpcAsServer s .running) b) t pq pr big k).1.s with ftpcComp := false }
+      else s := by
+  unfold Server.admin DatabaseTickTr.ftpcRestart DatabaseTickTr.Ftpc_Service_restart DatabaseTickTr.ftpcFix
+    DatabaseTickTr.Ftpc_Software_fix ftpcBack ftpcAsServer
+  cases hx : s.ftpcFix <;> cases hc : s.ftpcComp <;> simp [hon, hf, hx, hc, ftpcRestartDur, ftpcFixDur]
+
+/-- non-vacuity: the FTP client, `fix` (2) and `restart` (5) at once: GOOD again after two ticks, RUNNING again at the sixth. -/
+example :
+    let s0 : Server := {}
+    let s1 := (s0.admin (.ftpc .fix)).1
+    let s2 := (s1.admin (.ftpc .restart)).1
+    let tick := fun (s : Server) => ftpcBack s (DatabaseTickTr.ftpcApplyTimestep (TickW.of (ftpcAsServer s (s.ftpc.getD .stopped)) {}) 3 true true true true).s
+    s1.ftpcFix = some 2 ∧ s1.ftpc = some .running ∧ (s1.admin (.ftpc .restart)).2 = some true ∧
+    (tick s1).ftpcFix = some 1 ∧ (tick (tick s1)).ftpcFix = none := by decide
+
 end Primaite.Database
